@@ -1367,5 +1367,12 @@ def r10(ctx):
     ctx.check(ok, "C01.R10", "Token.split cuts the token text at the match boundaries without losing characters", sp.where, ctx.construct(sp, text="split"),
               "Token.split changed shape")
 
+
+def f1(ctx):
+    """generic same-name parameter forwarding over this property's modules (see shared.generic_forwarding)."""
+    from . import shared as _sh
+    _sh.generic_forwarding(ctx, "C01.F1", _sh.PROPERTY_MODULES["C01"])
+
+
 RULES = [("C01.R1", r1), ("C01.R2", r2), ("C01.R3", r3), ("C01.R4", r4), ("C01.R5", r5), ("C01.R6", r6), ("C01.R7", r7),
-         ("C01.R8", r8), ("C01.R9", r9), ("C01.R10", r10)]
+         ("C01.R8", r8), ("C01.R9", r9), ("C01.R10", r10), ("C01.F1", f1)]
